@@ -230,16 +230,17 @@ def searchLoop (vals : List Int) (first maxDelta : Int) (maxSize : Nat) :
       | .fail dhi => searchLoop vals first maxDelta maxSize n dhi upper sol
     else sol
 
-/-- The final loop: representative `(last + first) / 2` of every interval, every member mapped
-to the 1-based class index. `none` = overflow of `last + first`, or an empty interval
-(`interval.last().unwrap()`). -/
+/-- The final loop: representative `(last + first) / 2` of every interval, computed in `i64`
+(no overflow) and converted back with `try_into().expect(…)`; every member mapped to the
+1-based class index. `none` = the midpoint is not an `i32` (impossible for `i32` inputs), or an
+empty interval (`interval.last().unwrap()`). -/
 def emit : List (List Int) → Nat → Option (List Int × List (Int × Nat))
   | [], _ => some ([], [])
   | cls :: rest, idx =>
     match cls.head?, cls.getLast? with
     | some f, some l =>
-      match chk (l + f), emit rest (idx + 1) with
-      | some s, some (reps, m) => some (Int.tdiv s 2 :: reps, cls.map (fun v => (v, idx)) ++ m)
+      match chk (Int.tdiv (l + f) 2), emit rest (idx + 1) with
+      | some r, some (reps, m) => some (r :: reps, cls.map (fun v => (v, idx)) ++ m)
       | _, _ => none
     | _, _ => none
 
@@ -257,13 +258,12 @@ def compress (values : List Int) (maxSize : Nat) : Out (List Int × List (Int ×
   else
     match vals.head?, vals.getLast? with
     | some first, some last =>
-      match chk (last - first) with
+      -- since /repo 3d2d8d9 the search runs on `i64` copies: `last - first` cannot overflow
+      let maxDelta := last - first
+      let sol := searchLoop vals first maxDelta maxSize 64 0 maxDelta [vals]
+      match emit sol 1 with
+      | some (reps, m) => .ok (0 :: reps, m)
       | none => .panic
-      | some maxDelta =>
-        let sol := searchLoop vals first maxDelta maxSize 64 0 maxDelta [vals]
-        match emit sol 1 with
-        | some (reps, m) => .ok (0 :: reps, m)
-        | none => .panic
     | _, _ => .panic
 
 /-! ### Specification of `compress`: covers by intervals -/
